@@ -54,6 +54,9 @@ class GenericGroupRegistry(
         """Generate subclasses on the fly and attach them to self"""
         super()._init_dynamic_classes()
         self.Group = create_class_with_registry(self, objects.Group)
+        # groups that exist already (a deep copy of a registry) belong to this registry
+        for group in getattr(self, "_groups", {}).values():
+            group.__class__ = self.Group
 
     def _after_init(self) -> None:
         """Invoked at the end of ``__init__``.
